@@ -627,6 +627,33 @@ Definition run_op (vr : variant) (loc u fl : str) (w : world) (m : mem) (x : op)
 
 (* ---------------------------------------------------------------- the two user-tag commands *)
 
+(* what the loaded stacks say (the lookups of the answers below, needed here for the decisions of
+   Eups.unassignTag, which reads the tags of the product from the cache) *)
+Definition mem_decl (m : mem) (s n v f : str) : option vrec :=
+  match alookup s m with
+  | Some ps => match alookup f (ps_lookup ps) with Some fd => fd_decl fd n v | None => None end
+  | None => None
+  end.
+
+Definition mem_utag (m : mem) (s n t f : str) : option str :=
+  match alookup s m with
+  | Some ps => match alookup f (ps_lookup ps) with Some fd => fd_utag fd n t | None => None end
+  | None => None
+  end.
+
+(* getTaggedProduct in the cache: the version of the user tag, when the family has it *)
+Definition mem_vis_utag (m : mem) (s n t f : str) : option str :=
+  match mem_utag m s n t f with
+  | Some v => if is_some (mem_decl m s n v f) then Some v else None
+  | None => None
+  end.
+
+Fixpoint first_mutagged (m : mem) (roots : list str) (n t f : str) : option (str * str) :=
+  match roots with
+  | [] => None
+  | s :: r => match mem_vis_utag m s n t f with Some v => Some (s, v) | None => first_mutagged m r n t f end
+  end.
+
 (* the user tag t of user u on product n of stack s that a reader sees: the version must be declared *)
 Definition vis_utag (w : world) (u s n t f : str) : option str :=
   match uc_tag (w_uc w) u s n t f with
@@ -653,8 +680,10 @@ Definition uassign_plan (w : world) (o : opts) (t n v : str) : res (option uact)
   | None => Err NotFound
   end.
 
-(* Eups.unassignTag: as Model/Db.v unassign_acts, the tag being looked up in the tag directory *)
-Definition uunassign_plan (w : world) (u : str) (o : opts) (t n : str) (vo : option str) : res (option uact) :=
+(* Eups.unassignTag: as Model/Db.v unassign_acts; whether the product carries the user tag is read from
+   the loaded stacks (product.tags, findProduct(name, tag)): under the coherence theorem that is what the
+   tag directory says, on the pinned tree it is not *)
+Definition uunassign_plan (w : world) (m : mem) (o : opts) (t n : str) (vo : option str) : res (option uact) :=
   let a := view (w_db w) in
   let f := o_flavor o in
   match vo with
@@ -662,14 +691,14 @@ Definition uunassign_plan (w : world) (u : str) (o : opts) (t n : str) (vo : opt
       match find_exact a (roots_of a (o_stack o)) n v f with
       | None => Err NotFound
       | Some (s', _) =>
-          if opt_str_eqb (uc_tag (w_uc w) u s' n t f) v
+          if opt_str_eqb (mem_utag m s' n t f) v
           then (if o_noaction o then Ok None else Ok (Some (UDel s' n t f)))
           else Ok None
       end
   | None =>
       match o_stack o with
       | None =>
-          match first_utagged w u (apath a) n t f with
+          match first_mutagged m (apath a) n t f with
           | Some (s', _) => if o_noaction o then Ok None else Ok (Some (UDel s' n t f))
           | None =>
               match find_tagged a (apath a) n current f with
@@ -752,7 +781,7 @@ Definition run_pop (vr : variant) (loc u fl : str) (w : world) (m : mem) (x : po
   | POp o => run_op vr loc u fl w m o crash
   | PDel l s f => (delete_cache w l s f, m, OOk)
   | PUAssign o t n v => run_uop vr loc u fl w m o (uassign_plan w o t n v) crash
-  | PUUnassign o t n vo => run_uop vr loc u fl w m o (uunassign_plan w u o t n vo) crash
+  | PUUnassign o t n vo => run_uop vr loc u fl w m o (uunassign_plan w m o t n vo) crash
   end.
 
 (* crash = (index of the operation, index of the group, before / after its database call) *)
@@ -867,12 +896,6 @@ Definition q_eval (path : list str) (q : query) : answer :=
   end.
 End Eval.
 
-Definition mem_decl (m : mem) (s n v f : str) : option vrec :=
-  match alookup s m with
-  | Some ps => match alookup f (ps_lookup ps) with Some fd => fd_decl fd n v | None => None end
-  | None => None
-  end.
-
 Definition mem_tag (m : mem) (s n t f : str) : option str :=
   match alookup s m with
   | Some ps => match alookup f (ps_lookup ps) with Some fd => fd_tag fd n t | None => None end
@@ -908,18 +931,24 @@ Definition uq_eval (path : list str) (q : uquery) : answer :=
   end.
 End UEval.
 
-Definition mem_utag (m : mem) (s n t f : str) : option str :=
-  match alookup s m with
-  | Some ps => match alookup f (ps_lookup ps) with Some fd => fd_utag fd n t | None => None end
-  | None => None
-  end.
-
 (* the answer of an Eups whose product stacks are m (noCache=False) *)
 Definition uq_cache (m : mem) (q : uquery) : answer := uq_eval (mem_decl m) (mem_utag m) (map fst m) q.
 
 (* the answer read from the version files and the chain files of the tag directory of user u (noCache=True) *)
 Definition uq_db (w : world) (u : str) (q : uquery) : answer :=
   uq_eval (db_decl (w_db w)) (fun s n t f => uc_tag (w_uc w) u s n t f) (map fst (w_db w)) q.
+
+(* what Database.getChainFile(user tag) finds with noCache=True: a chain file of that name among the
+   stack's own comes first, then the tag directory.  In the worlds of the repaired code no chain file of
+   a stack is named like a user tag and this is [uq_db]; on the pinned tree Eups.assignTag puts them there *)
+Definition ufile_tag (w : world) (u s n t f : str) : option str :=
+  match db_cfile (w_db w) s (n, t) with
+  | Some c => alookup f c
+  | None => uc_tag (w_uc w) u s n t f
+  end.
+
+Definition uq_files (w : world) (u : str) (q : uquery) : answer :=
+  uq_eval (db_decl (w_db w)) (ufile_tag w u) (map fst (w_db w)) q.
 
 (* ---------------------------------------------------------------- the vocabulary of the theorems *)
 
